@@ -89,8 +89,21 @@ func (g *Gen) init() {
 	for _, gd := range g.DB.Ghosts {
 		if t := g.lookupNamed(gd.TypeName); t != nil {
 			var ft types.Type
-			if tn, ok := types.Universe.Lookup(gd.TypeSrc).(*types.TypeName); ok {
+			src := gd.TypeSrc
+			var alen int64 = -1
+			if strings.HasPrefix(src, "[") {
+				j := strings.Index(src, "]")
+				fmt.Sscan(src[1:j], &alen)
+				src = src[j+1:]
+			}
+			if tn, ok := types.Universe.Lookup(src).(*types.TypeName); ok {
 				ft = tn.Type()
+			}
+			if _, isIface := t.Underlying().(*types.Interface); isIface && ft != nil {
+				ft = ghostInt
+			}
+			if ft != nil && alen >= 0 {
+				ft = types.NewArray(ft, alen)
 			}
 			if ft == nil {
 				g.Warnings = append(g.Warnings, "ghost field: unknown type "+gd.TypeSrc)
@@ -164,6 +177,9 @@ func (g *Gen) run() {
 		}
 		g.fnAssigns = append(g.fnAssigns, r)
 	}
+	for _, se := range g.shapeErrors {
+		g.obls = append(g.obls, &Obl{Name: g.key + ":contract-shape:" + se, Kind: "contract-shape", Label: se, Pos: g.posOf(fn.Pos()), Func: g.key, Prefix: 0, Goal: "false"})
+	}
 	// vacuity canary: the assumptions at entry must be satisfiable
 	g.obls = append(g.obls, &Obl{Name: g.key + ":canary:entry", Kind: "canary", Func: g.key, Prefix: len(g.cmds), Goal: "false", Canary: true, Pos: g.posOf(fn.Pos())})
 
@@ -234,7 +250,8 @@ func (g *Gen) findLoops() {
 	}
 	for n := range g.spec.Loops {
 		if n < 1 || n > len(g.loops) {
-			specFail("contract names loop %d but the function has %d loops", n, len(g.loops))
+			// the loop the contract talks about is gone: its obligations can no longer be discharged
+			g.shapeErrors = append(g.shapeErrors, fmt.Sprintf("loop%d-missing(function has %d loops)", n, len(g.loops)))
 		}
 	}
 	// reverse postorder ignoring back edges
@@ -674,6 +691,9 @@ func (g *Gen) prepass() {
 			}
 		case *types.Interface:
 			g.heapFor("Iface")
+			if len(g.L.ghostOf(t)) > 0 {
+				g.heapFor("GInt")
+			}
 		case *types.Map:
 			g.heapFor("Ptr")
 			ks, vs := g.L.CellSort(u.Key()), g.L.CellSort(u.Elem())
